@@ -1357,9 +1357,13 @@ HALFTURN_T = st.tuples(st.sampled_from(["xy", "xz", "yz", "generic"]), _FPI, UNI
     _halfturn_from)
 _T = st.fixed_dictionaries({"T": G.se3s()})
 # logarithms: the C01 pose generator (every angle, pi-10^-k, quaternions, half turns) plus extra half turns
-_TLOG = st.fixed_dictionaries({"T": st.one_of(G.se3s(), G.se3s(), G.se3s(), HALFTURN_T)})
-_V = st.fixed_dictionaries({"V": G.twists()})
-_W = st.fixed_dictionaries({"w": G.rotvecs()})
+# ... and poses with SMALL rotations (1e-3 .. 0.3 rad, every decade): where a series / shortcut would take over
+_TSMALL = G.se3s(ang=G.log_uniform(1e-3, 0.3))
+_T = st.fixed_dictionaries({"T": st.one_of(G.se3s(), G.se3s(), G.se3s(), _TSMALL)})
+_TLOG = st.fixed_dictionaries({"T": st.one_of(G.se3s(), G.se3s(), G.se3s(), HALFTURN_T, _TSMALL)})
+_SMALLANG = G.log_uniform(1e-3, 0.3)
+_V = st.fixed_dictionaries({"V": st.one_of(G.twists(), G.twists(), G.twists(), G.twists(ang=_SMALLANG))})
+_W = st.fixed_dictionaries({"w": st.one_of(G.rotvecs(), G.rotvecs(), G.rotvecs(), G.rotvecs(ang=_SMALLANG))})
 _OMG = st.fixed_dictionaries({"omg": NONZERO_VEC3})
 
 ID_FIELDS = ("dq", "ddq", "g", "Ftip")
